@@ -854,36 +854,15 @@ HighPriorityASDUQueue_resetConnectionQueue(HighPriorityASDUQueue self)
 static bool
 HighPriorityASDUQueue_hasUnconfirmedIMessages(HighPriorityASDUQueue self)
 {
-    bool retVal = false;
+    /*
+     * Entries of the high-priority queue are removed from the queue when they are sent
+     * (HighPriorityASDUQueue_getNextASDU) and have no entry state - the queue uses a two byte
+     * size header, not struct sMessageQueueEntryInfo. So this queue never contains
+     * messages that are sent but not confirmed.
+     */
+    (void) self;
 
-    if (self->entryCounter != 0)
-    {
-        uint8_t* entryPtr = self->firstEntry;
-
-        struct sMessageQueueEntryInfo entryInfo;
-
-        while (entryPtr)
-        {
-            memcpy(&entryInfo, entryPtr, sizeof(struct sMessageQueueEntryInfo));
-
-            if (entryInfo.entryState == QUEUE_ENTRY_STATE_SENT_BUT_NOT_CONFIRMED)
-            {
-                retVal = true;
-                break;
-            }
-
-            if (entryPtr == self->lastEntry)
-                break;
-
-            /* move to next entry */
-            if (entryPtr == self->lastInBufferEntry)
-                entryPtr = self->buffer;
-            else
-                entryPtr = entryPtr + sizeof(struct sMessageQueueEntryInfo) + entryInfo.size;
-        }
-    }
-
-    return retVal;
+    return false;
 }
 
 /***************************************************
